@@ -204,7 +204,7 @@ def run_harness(prog, h, max_witnesses=60, jobs=None):
 def _run_inputs(prog, h, inputs, max_witnesses=60):
     res = HarnessResult(h.name)
     t0 = time.time()
-    models = Models()
+    models = getattr(h, "models_cls", Models)()
     try:
         fname = h.func if callable(h.func) else prog.find(h.func)
     except Unsupported as e:
@@ -309,9 +309,9 @@ class NativeEval:
             self.p.kill()
 
 
-def run_concrete(prog, fname, args):
+def run_concrete(prog, fname, args, models_cls=Models):
     """interpret one call on fully concrete arguments → (kind, value_py)"""
-    ex = Executor(prog, Models())
+    ex = Executor(prog, models_cls())
     rs = ex.explore(fname if callable(fname) else prog.find(fname), lambda ctx: list(args))
     if len(rs) != 1:
         return "unsupported", "concrete run produced %d paths" % len(rs)
@@ -321,7 +321,7 @@ def run_concrete(prog, fname, args):
     return r.kind, r.info
 
 
-def process(rep, prog, nat, h, tier, validate_inputs=(), to_native_args=None):
+def process(rep, prog, nat, h, tier, validate_inputs=(), to_native_args=None, compare=None):
     """run one E2 harness, validate the encoding on concrete inputs, replay witnesses, fill the report"""
     res = run_harness(prog, h)
     # translator validation: interpreter (concrete mode) == native build
@@ -329,7 +329,7 @@ def process(rep, prog, nat, h, tier, validate_inputs=(), to_native_args=None):
     checked = 0
     for args in validate_inputs:
         try:
-            ik, iv = run_concrete(prog, h.func, args)
+            ik, iv = run_concrete(prog, h.func, args, getattr(h, "models_cls", Models))
         except Exception as e:  # noqa
             ik, iv = "unsupported", str(e)
         nargs = to_native_args([to_py(a) for a in args]) if to_native_args else [to_py(a) for a in args]
@@ -337,7 +337,11 @@ def process(rep, prog, nat, h, tier, validate_inputs=(), to_native_args=None):
         checked += 1
         if ik == "unsupported" or ik == "bound":
             continue
-        if ik != nk or (ik == "return" and iv != nv):
+        if compare is not None:
+            same = compare(ik, iv, nk, nv)
+        else:
+            same = not (ik != nk or (ik == "return" and iv != nv))
+        if not same:
             mism += 1
             if mism <= 3:
                 rep.mismatches.append("%s: interpreter %s %r != native %s %r on %r" % (h.name, ik, iv, nk, nv, nargs))
